@@ -306,6 +306,16 @@ func (w *World) CheckBounds(rr *RuleRun, fn *ssa.Function) int {
 				rr.At(w, ins, "index by range variable of the same value", true, "idx produced by range over "+w.TS.Of(x).String())
 				continue
 			}
+			// x = make(T, len(y)) indexed by the range variable of a loop over y
+			if mk, isMk := x.(*ssa.MakeSlice); isMk {
+				if lc, isCall := mk.Len.(*ssa.Call); isCall {
+					if bi, isB := lc.Call.Value.(*ssa.Builtin); isB && bi.Name() == "len" && len(lc.Call.Args) == 1 && isRangeIndex(idx, lc.Call.Args[0]) {
+						n++
+						rr.At(w, ins, "index by range variable of the value whose length sized the slice", true, "make(_, len(y)) indexed while ranging over y = "+w.TS.Of(lc.Call.Args[0]).String())
+						continue
+					}
+				}
+			}
 			n++
 			if ok, how := w.recoveredBy(ins); ok {
 				rr.At(w, ins, "index "+w.TS.Of(x).String()+"["+w.TS.Of(idx).String()+"] in range or recovered", true, how)
